@@ -595,6 +595,29 @@ fn lazy_rows(case: &Case, doc: &[u8], plan: &ReadPlan) -> Result<(String, bool),
             return Err(("C11 lazy-rows iterator creation consumed beyond the first row token".into(), format!("{used} bytes consumed, bound {bound}")));
         }
     }
+    // letting go of the iterator after some rows reads nothing: a caller that has seen what it
+    // wanted of a grid that is still arriving is not made to wait for the rest
+    for take in [0usize, 1, ref_rows.len() / 2] {
+        if take >= ref_rows.len() {
+            continue;
+        }
+        let mut r1 = SimReader::new(doc, plan);
+        let st = r1.stats.clone();
+        let mut p = libhaystack::encoding::zinc::decode::parser::Parser::make(&mut r1).map_err(|e| ("C11 lazy-rows parser make failed".to_string(), e.to_string()))?;
+        let mut it = libhaystack::encoding::zinc::decode::parse_grid_iterator(&mut p).map_err(|e| ("C11 lazy-rows iterator creation failed".to_string(), e.to_string()))?;
+        for _ in 0..take {
+            let _ = it.next();
+        }
+        let before = st.delivered.get();
+        drop(it);
+        let after = st.delivered.get();
+        if after != before {
+            return Err((
+                "C11 lazy-rows dropping the iterator consumes the stream".into(),
+                format!("after {take} of {} rows {before} bytes had been consumed; dropping the iterator consumed {} more (of {len})", ref_rows.len(), after - before),
+            ));
+        }
+    }
     // 3: availability — the prefix that ends with the first token after row k yields rows 0..=k
     let ks: Vec<usize> = if ref_rows.len() <= 4 { (0..ref_rows.len()).collect() } else { vec![0, ref_rows.len() / 2, ref_rows.len() - 1] };
     for k in ks {
